@@ -24,6 +24,12 @@ func checkC10Bind(c *Ctx, n int) {
 	r := c.Rng
 	for i := 0; i < n; i++ {
 		g := &gen{r: r, p: p}
+		// a third of the cases: string-kinded fields only, among them a type with its own conversion
+		// (the harness' Upper stores the text in upper case), and words with letters
+		letters := i%3 == 2
+		if letters {
+			g.p.OnlyTypes = []string{"str", "c0", "Lstr", "Lc0", "c0", "Lc0"}
+		}
 		cs := g.genCase()
 		cs.Env = nil
 		// no count constraints: this stage is about where words go
@@ -35,6 +41,15 @@ func checkC10Bind(c *Ctx, n int) {
 					f.Tag = `positional-args:"yes"`
 					for si := range f.Sub.Fields {
 						f.Sub.Fields[si].Tag = ""
+						if letters {
+							sf := &f.Sub.Fields[si]
+							sf.Init = ""
+							if sf.Ty[0] == 'L' {
+								sf.Ty = []string{"Lstr", "Lc0"}[r.Intn(2)]
+							} else {
+								sf.Ty = []string{"str", "c0"}[r.Intn(2)]
+							}
+						}
 					}
 				} else if f.Sub != nil {
 					strip(f.Sub)
@@ -144,6 +159,9 @@ func checkC10Bind(c *Ctx, n int) {
 				argv = append(argv, flagsInScope[r.Intn(len(flagsInScope))])
 			}
 			words[j] = fmt.Sprint(11 + j)
+			if letters {
+				words[j] = "w" + words[j] + "x"
+			}
 			// (only while a field still takes the word: beyond the fields such a word is a command)
 			lastIsSlice := reflectKindOfArg(real, args[len(args)-1]) == reflect.Slice
 			if len(subNames) > 0 && r.Intn(4) == 0 && (j < len(args) || lastIsSlice) {
@@ -195,6 +213,12 @@ func checkC10Bind(c *Ctx, n int) {
 				in["case_file"] = c.saveCase(cr)
 				c.Check("words-bind-to-fields-in-declaration-order", false, "C10:binding", in, got, want)
 			}
+			conv := func(code, w string) string {
+				if code == "c0" || code == "Lc0" {
+					return asciiUpper(w)
+				}
+				return w
+			}
 			used := 0
 			for ai, a := range args {
 				fr, ok := cr.Real.fields[a.Name]
@@ -205,7 +229,9 @@ func checkC10Bind(c *Ctx, n int) {
 				if fr.val.Kind() == reflect.Slice && ai == len(args)-1 {
 					var want []string
 					if used < k {
-						want = words[used:]
+						for _, w := range words[used:] {
+							want = append(want, conv(fr.code, w))
+						}
 					}
 					used = k
 					got := make([]string, fr.val.Len())
@@ -220,12 +246,8 @@ func checkC10Bind(c *Ctx, n int) {
 				}
 				if used < k {
 					got := fmt.Sprint(fr.val.Interface())
-					if fr.code == "c0" {
-						// (the harness' Upper type stores the text in upper case)
-						got = strings.ToLower(got)
-					}
-					if got != strings.ToLower(words[used]) && got != words[used] {
-						fail(fmt.Sprintf("%s = %q", a.Name, got), fmt.Sprintf("%s = %q (word %d)", a.Name, words[used], used+1))
+					if got != conv(fr.code, words[used]) {
+						fail(fmt.Sprintf("%s = %q", a.Name, got), fmt.Sprintf("%s = %q (word %d, as a %s)", a.Name, conv(fr.code, words[used]), used+1, fr.code))
 						return
 					}
 					used++
